@@ -35,7 +35,7 @@ Definition ex_stmt : nodes :=
   NCons (N KGen (NCons (N (KAttr 7 Store) (NCons (N (KName 5 Load) NNil) NNil)) (NCons (N (KName 6 Store) NNil) NNil)))
  (NCons (N KGen (NCons (N (KSub Load) (NCons (N (KName 2 Load) NNil) (NCons (N (KName 4 Load) NNil) NNil))) (NCons (N (KName 3 Load) NNil) NNil))) NNil).
 Example ex_ok : fexpr_list ex_stmt = true. Proof. vm_compute; reflexivity. Qed.
-Example ex_sets : let s := visit_list (mkq true true true) fl0 ex_stmt in
+Example ex_sets : let s := visit_list (mkq true true true true) fl0 ex_stmt in
   (rd s, md s) = ([QS 5; QS 2; QS 4; QI (QS 2) (QS 4); QS 3], [QA (QS 5) 7; QS 6]).
 Proof. vm_compute; reflexivity. Qed.
 Print Assumptions stmt_reads_writes_complete_partial.
